@@ -1,8 +1,114 @@
 import Solvor.Common.Proto
 import Solvor.Search.Model
-/-! Search: line-protocol handler. One request line in, one reply line out. -/
-namespace Solvor.Search
+/-! Search: line-protocol handler. One request line in, one reply line out.
 
-def handle (line : String) : String := "unimplemented " ++ line
+request `["run", solver, minimize, fs, coins, params, tol, cands, implObj, implFSol, implEvals, bounds, point]`
+  solver   : "anneal" | "tabu" | "lns" | "alns" | "evolve" | "de" | "pso" | "bayes" | "nm"
+  fs       : every value the recording proxy saw, in call order, user's sign (rationals)
+  coins    : one Bool per evaluation index (accept decision observed for that candidate; padded with false)
+  params   : naturals, per solver
+               anneal [iters]                       tabu  [cooldown, maxNoImprove, stopAt]
+               lns/alns [accept, maxIter, maxNoImprove, stopAt]   (accept: 0 improving 1 all 2 sa 3 custom)
+               evolve [popSize, eliteSize, gens]    de [popSize, gens]   pso [nParticles, iters]
+               bayes [nInitial, iters]              nm [n, maxIter, stopAt]
+  tol      : rational (nm) or null
+  cands    : tabu: candidate move ids per started iteration, evaluation order; else []
+  implObj, implFSol, implEvals : Result.objective, objective re-evaluated on Result.solution, Result.evaluations
+  bounds, point : null, or [[lo,hi],…] and the returned point (exact rationals)
+reply `[objective, solIdx, evaluations, trace, iterations, origObjective, origSolIdx, check, inBounds|null]`
+  objective/solIdx/evaluations : the skeleton's `Outcome` (repaired rule where a repair is proposed)
+  trace      : index of the current solution after every step (anneal, tabu, lns, alns), else []
+  iterations : loop bodies the skeleton executed before it stopped by its own rule
+  orig*      : outcome of the rule as written in the unchanged tree (lns, nm), else same as above
+  check      : verified checker `checkResult` on the implementation's answer
+-/
+namespace Solvor.Search
+open Solvor.Proto
+
+/-- iterate `f` `n` times collecting `proj` of every state reached. -/
+def iterTrace {σ : Type} (f : σ → σ) (proj : σ → Nat) : Nat → σ → List Nat → σ × List Nat
+  | 0, s, acc => (s, acc.reverse)
+  | n + 1, s, acc => let s' := f s; iterTrace f proj n s' (proj s' :: acc)
+
+/-- same, but stop collecting once `done`. -/
+def iterTraceD {σ : Type} (f : σ → σ) (proj : σ → Nat) (done : σ → Bool) :
+    Nat → σ → List Nat → σ × List Nat
+  | 0, s, acc => (s, acc.reverse)
+  | n + 1, s, acc => if done s then (s, acc.reverse) else
+      let s' := f s; iterTraceD f proj done n s' (proj s' :: acc)
+
+def accOf : Nat → Accept
+  | 0 => .improving | 1 => .all | 2 => .sa | _ => .custom
+
+def reply (m : Bool) (c : Core) (trace : List Nat) (iters : Nat) (o : Core) : List Val :=
+  let oc := c.outcome m
+  let oo := o.outcome m
+  [Val.ofRat oc.objective, Val.int oc.solIdx, Val.int oc.evaluations, Val.ofNats trace, Val.int iters,
+   Val.ofRat oo.objective, Val.int oo.solIdx]
+
+def runSolver (solver : String) (m : Bool) (fs : Array Rat) (coins : Array Bool) (ps : List Nat)
+    (tol : Rat) (cands : List (List Nat)) : Option (List Val) :=
+  let val : Nat → Rat := internal m (fun k => fs.getD k 0)
+  let coin : Nat → Bool := fun k => coins.getD k false
+  match solver, ps with
+  | "anneal", [iters] =>
+    let (s, tr) := iterTrace (annealStep val coin) (·.curIdx) iters (annealInit val) []
+    some (reply m s.core tr iters s.core)
+  | "tabu", [cooldown, mni, stopAt] =>
+    let (s, tr) := cands.foldl (fun (p : TabuSt × List Nat) ms =>
+        if p.1.done then p else
+        let s' := tabuStep val cooldown mni stopAt p.1 ms; (s', s'.curIdx :: p.2)) (tabuInit val, [])
+    some (reply m s.core tr.reverse s.iteration s.core)
+  | "lns", [a, maxIter, mni, stopAt] =>
+    let (s, tr) := iterTraceD (lnsStep val coin (accOf a) mni stopAt) (·.curIdx) (·.done) maxIter (lnsInit val) []
+    let o := lnsRun true val coin (accOf a) maxIter mni stopAt
+    some (reply m s.core tr s.iteration o.core)
+  | "alns", [a, maxIter, mni, stopAt] =>
+    let (s, tr) := iterTraceD (alnsStep val coin (accOf a) mni stopAt) (·.curIdx) (·.done) maxIter (lnsInit val) []
+    some (reply m s.core tr s.iteration s.core)
+  | "evolve", [popSize, eliteSize, gens] =>
+    let s := evoRun val popSize eliteSize gens
+    some (reply m s.core [] gens s.core)
+  | "de", [popSize, gens] =>
+    let s := deRun val popSize gens
+    some (reply m s.core [] gens s.core)
+  | "pso", [n, iters] =>
+    let s := psoRun val n iters
+    some (reply m s.core [] iters s.core)
+  | "bayes", [n0, iters] =>
+    let c := bayesRun val n0 iters
+    some (reply m c [] iters c)
+  | "nm", [n, maxIter, stopAt] =>
+    let s := nmRun val n tol maxIter stopAt
+    some (reply m (nmResult false s) [] s.iteration (nmResult true s))
+  | _, _ => none
+
+def toPair? (v : Val) : Option (Rat × Rat) :=
+  match v.toRats? with
+  | some [a, b] => some (a, b)
+  | _ => none
+
+def handle (line : String) : String :=
+  match request line with
+  | some ("run", [solver, m, fs, coins, ps, tol, cands, iobj, ifsol, ievals, bounds, point]) =>
+    match solver.toStr?, m.toBool?, fs.toRats?, coins.toArr?, ps.toNats?, tol.toOpt? Val.toRat?,
+          cands.toNatss?, iobj.toRat?, ifsol.toRat?, ievals.toNat? with
+    | some solver, some m, some fs, some coins, some ps, some tol, some cands, some iobj, some ifsol,
+      some ievals =>
+      match coins.mapM Val.toBool?, runSolver solver m fs.toArray ((coins.filterMap Val.toBool?).toArray) ps
+              (tol.getD 0) cands with
+      | some _, some out =>
+        let chk := checkResult m fs iobj ifsol ievals fs.length
+        let inb : Val :=
+          match bounds.toArr?, point.toRats? with
+          | some bs, some p =>
+            match bs.mapM toPair? with
+            | some bs => Val.bool (inBounds bs p)
+            | none => Val.null
+          | _, _ => Val.null
+        (Val.arr (out ++ [Val.bool chk, inb])).render
+      | _, _ => err "bad solver/params"
+    | _, _, _, _, _, _, _, _, _, _ => err "bad arguments"
+  | _ => err "bad request"
 
 end Solvor.Search
